@@ -298,26 +298,49 @@ def build_obligations(p_std, p_core, tier, log_dir):
 
         def replay(model, c):
             a, b = model_int(model, "a", c.enc), model_int(model, "b", c.enc)
-            if c.enc.int_bits != 64:
-                return None, f"model a={a} b={b} at {c.enc.int_bits} bits cannot be replayed on the i64 code", None
-            texts = []
-            bad = False
-            rm = native(NATIVE[(which, "mod")], a, b, log_dir)
-            rd = native(NATIVE[(which, "fdiv")], a, b, log_dir)
-            for prof in ("dev", "release"):
-                km, vm = rm[prof]
-                kd, vd = rd[prof]
-                okm_ = km == "OK" and py_mod_ok(a, b, int(vm))
-                okd_ = kd == "OK" and py_floor_ok(a, b, int(vd))
-                if kind in ("sign",) and not okm_:
-                    bad = True
-                if kind in ("floor",) and not okd_:
-                    bad = True
-                if kind in ("ident", "nopanic") and not (okm_ and okd_):
-                    bad = True
-                texts.append(f"{prof}: {a} % {b} -> {km} {vm} (Python {a % b}); {a} // {b} -> {kd} {vd} (Python {a // b})")
+
+            def run_native(a, b):
+                texts = []
+                bad = False
+                rm = native(NATIVE[(which, "mod")], a, b, log_dir)
+                rd = native(NATIVE[(which, "fdiv")], a, b, log_dir)
+                for prof in ("dev", "release"):
+                    km, vm = rm[prof]
+                    kd, vd = rd[prof]
+                    okm_ = km == "OK" and py_mod_ok(a, b, int(vm))
+                    okd_ = kd == "OK" and py_floor_ok(a, b, int(vd))
+                    if kind in ("sign",) and not okm_:
+                        bad = True
+                    if kind in ("floor",) and not okd_:
+                        bad = True
+                    if kind in ("ident", "nopanic") and not (okm_ and okd_):
+                        bad = True
+                    texts.append(f"{prof}: {a} % {b} -> {km} {vm} (Python {a % b}); {a} // {b} -> {kd} {vd} (Python {a // b})")
+                return bad, "; ".join(texts)
             fn = NATIVE[(which, "mod" if kind == "sign" else "fdiv")]
-            return bad, "; ".join(texts), f"num {fn} {a} {b}"
+            if c.enc.int_bits != 64:
+                # a counterexample of the SAME code at a narrower width: carry it to 64 bits relative to the nearest of MIN / 0 / MAX
+                # (overflow and rounding bugs live at those anchors) and believe it only if the real i64 code reproduces it
+                w = c.enc.int_bits
+                lo, hi = -(1 << (w - 1)), (1 << (w - 1)) - 1
+                LO, HI = -(1 << 63), (1 << 63) - 1
+
+                def lifts(v):
+                    out = [v, LO + (v - lo), HI - (hi - v)]
+                    return [x for k, x in enumerate(out) if LO <= x <= HI and x not in out[:k]]
+                tried = []
+                for a2 in lifts(a):
+                    for b2 in lifts(b):
+                        if b2 == 0 or (a2, b2) == (LO, -1) and kind != "sign":
+                            continue
+                        bad, text = run_native(a2, b2)
+                        tried.append(f"({a2}, {b2})")
+                        if bad:
+                            return True, f"{w}-bit model a={a} b={b} carried to i64 as a={a2} b={b2}: " + text, f"num {fn} {a2} {b2}"
+                return None, (f"model a={a} b={b} at {w} bits: none of its 64-bit images {', '.join(tried)} reproduces on the i64 code "
+                              "(a width-specific artefact of the cross-check, or a violation away from the anchors)"), None
+            bad, text = run_native(a, b)
+            return bad, text, f"num {fn} {a} {b}"
         return build, replay
 
     stmts = {
